@@ -906,6 +906,47 @@ func (w *World) refPage(repo, subject, rawQuery string) (*Resp, []descJSON, bool
 	return r, ds, true
 }
 
+// foreignContinuation sends the continuation of a paged listing (its page counter and cache token) to other repositories
+// and for another subject: whatever comes back may only list referrers of the repository and subject that were asked.
+func (w *World) foreignContinuation(repo, subj, rawQuery string) {
+	if w.quiet || w.x.stop {
+		return
+	}
+	type target struct{ repo, subj string }
+	var ts []target
+	for _, other := range append(append([]string{}, w.x.p.Repos...), "never/pushed") {
+		if other != repo && reRepo.MatchString(other) {
+			ts = append(ts, target{other, subj})
+		}
+	}
+	ts = append(ts, target{repo, digestOf("sha256", []byte("another subject"))})
+	if len(ts) > 3 {
+		ts = ts[:3]
+	}
+	for _, t := range ts {
+		r, descs, ok := w.refPage(t.repo, t.subj, rawQuery)
+		if r.Panicked || !ok || w.faulted(r, t.repo) || w.tainted[t.repo] {
+			continue
+		}
+		w.x.out.probe("referrers-foreign-continuation")
+		must, may := w.m.repo(t.repo).referrers(t.subj)
+		allowed := map[string]bool{}
+		for _, d := range append(must, may...) {
+			allowed[d] = true
+		}
+		for _, d := range descs {
+			if !allowed[d.Digest] {
+				if t.repo != repo {
+					w.x.viol([]string{"C16", "C07"}, "iso.referrers-continuation", "page of another repository served", fmt.Sprintf("GET /v2/%s/referrers/%s?%s (the continuation of a listing in %s) lists %s, which is not a referrer of that subject in %s", t.repo, t.subj, rawQuery, repo, d.Digest, t.repo))
+				} else {
+					w.x.viol([]string{"C07"}, "referrers.set", "continuation of another subject's listing served", fmt.Sprintf("GET /v2/%s/referrers/%s?%s (the continuation of the listing of %s) lists %s, which does not have that subject", t.repo, t.subj, rawQuery, subj, d.Digest))
+				}
+				return
+			}
+		}
+	}
+}
+
 // opRefs queries the referrers of a subject (object index, or literal digest in S) with an optional artifactType filter, walking pages.
 func (w *World) opRefs(op Op) {
 	repo := w.repoName(op.Repo)
@@ -992,6 +1033,7 @@ func (w *World) opRefs(op Op) {
 			return
 		}
 		lastQuery = u.RawQuery
+		w.foreignContinuation(repo, subj, u.RawQuery)
 		r2, d2, ok2 := w.refPage(repo, subj, u.RawQuery)
 		if w.faulted(r2, repo) {
 			return
